@@ -53,7 +53,7 @@ def run(ctx):
     for i, why in bad:
         line = lines[i]
         reason = why.strip().strip('"')
-        v.report("%s:%s:%s" % (line["side"], reason, line["cfg"]), dict(side=line["side"], cfg=line["cfg"], hist=line["hist"]), detail="obs=%s" % json.dumps(line["obs"]))
+        v.report("%s:%s:%s" % (line["side"], reason, line["cfg"]), dict(side=line["side"], cfg=line["cfg"], hist=line["hist"], note=line.get("note", "")), detail="obs=%s" % json.dumps(line["obs"]))
     def nontrivial(l):
         h = l["hist"]
         hs = [i for i, m in enumerate(h) if m in ("cer_ok", "cer_bad", "cer_noid", "cer_sec", "cea_ok", "cea_fail")]
